@@ -267,19 +267,21 @@ func (s *Session) Task(n *com.Packet) (*Job, error) {
 	if n.Device.Empty() {
 		n.Device = s.Device.ID
 	}
-	s.lock.RLock()
-	_, ok := s.jobs[n.Job]
-	if s.lock.RUnlock(); ok {
-		if xerr.ExtendedInfo {
+	// NOTE: The duplicate check, the queueing of the Packet and the insert are
+	//       one locked step, so a fast result always finds the Job and two
+	//       Tasks cannot register the same Job ID.
+	s.lock.Lock()
+	if _, ok := s.jobs[n.Job]; ok {
+		if s.lock.Unlock(); xerr.ExtendedInfo {
 			return nil, xerr.Sub("job "+util.Uitoa(uint64(n.Job))+" already registered", 0x5B)
 		}
 		return nil, xerr.Sub("job already registered", 0x5B)
 	}
 	if err := s.write(false, n); err != nil {
+		s.lock.Unlock()
 		return nil, err
 	}
 	j := &Job{ID: n.Job, Type: n.ID, Start: time.Now(), s: s, done: make(chan struct{})}
-	s.lock.Lock()
 	s.jobs[n.Job] = j
 	if s.lock.Unlock(); cout.Enabled {
 		s.log.Info("[%s/ShC] Added JobID %d to Track!", s.ID, n.Job)
